@@ -92,6 +92,25 @@ def run(ctx):
             bad.append({"what": "the result of run_scriptplan (status, files written) depends on what was run before it in the same interpreter",
                         "text": t, "history": [x["text"] for x in c["history"]], "history_status": h.get("history"),
                         "fresh": f.get("obs"), "after_history": h.get("obs")})
+    # ... and with ONE output directory for all runs: a file that an earlier run left there under the same name is
+    # replaced, not written over
+    valid = [t for t, f in zip(ctx_tx, cli_fresh) if (f.get("obs") or {}).get("cli", {}).get("ok")]
+    sh_cases = []
+    for t in ctx_tx:
+        hist = [{"text": ctx.rng.choice(valid or ctx_tx)} for _ in range(ctx.rng.randint(1, 3))]
+        sh_cases.append({"text": t, "cli": True, "history": hist, "shared_out": True})
+    sh_res = common.run_workers(ctx, "w_hist", sh_cases, hashseed="0")
+    for t, c, f, h in zip(ctx_tx, sh_cases, cli_fresh, sh_res):
+        if "worker_error" in f or "worker_error" in h:
+            stats["worker_error"] += 1
+            continue
+        stats["mode:cli-shared-output-directory"] += 1
+        fo, ho = (f.get("obs") or {}).get("cli", {}), (h.get("obs") or {}).get("cli", {})
+        mine = {x[0] for x in fo.get("files", [])}
+        if fo.get("ok") != ho.get("ok") or fo.get("raised") != ho.get("raised") or \
+                sorted(map(tuple, fo.get("files", []))) != sorted(tuple(x) for x in ho.get("files", []) if x[0] in mine):
+            bad.append({"what": "the files run_scriptplan writes differ when earlier runs wrote into the same output directory",
+                        "text": t, "history": [x["text"] for x in c["history"]], "fresh": fo, "after_history_same_directory": ho})
     for i, t in enumerate(tx):
         f = fresh[i]
         if "worker_error" in f:
@@ -126,7 +145,7 @@ def run(ctx):
         violations.append({"no_input": True, "replay": common.write_replay(ctx, {"property": "C12", "kind": "proof obligation no longer checks; no failing input found", "failing_obligations": failing})})
     cov = {"obligations": nob, "discharged": ndis, "checker_cmd": "tools/coqbuild.sh (coqc 8.16.1 full .vo build)", "trusted_base": common.TRUSTED, "files": files,
            "traces_validated_against_impl": len(tx) * 4, "input_distribution": dict(stats), "hash_seeds": ["0"] + seeds,
-           "rule": "each project text (10 generator families incl. containers and groups that pass allocations, priorities, limits and calendars on to their members, allocations with two or three alternatives on resources of differing availability, 40% with nested scenarios and scenario-specific efforts, a cost report attached) is processed (a) alone in a fresh process, (b) after a random history of 1-4 other parse/schedule/report calls incl. failing ones, second schedule() calls and projects parsed without scheduling and scheduled by an explicit call, with a fresh parser object per call or ONE parser object reused, (c) twice, (d) followed by a second schedule(), (e) under two further PYTHONHASHSEED values and under two other process time zones (TZ), (f) through run_scriptplan (the interface 'plan report' uses) alone and after 1-4 other such runs incl. runs the library ends with a fatal error; dates of all scenarios, the ledger and the report tables are compared",
+           "rule": "each project text (10 generator families incl. containers and groups that pass allocations, priorities, limits and calendars on to their members, allocations with two or three alternatives on resources of differing availability, 40% with nested scenarios and scenario-specific efforts, a cost report attached) is processed (a) alone in a fresh process, (b) after a random history of 1-4 other parse/schedule/report calls incl. failing ones, second schedule() calls and projects parsed without scheduling and scheduled by an explicit call, with a fresh parser object per call or ONE parser object reused, (c) twice, (d) followed by a second schedule(), (e) under two further PYTHONHASHSEED values and under two other process time zones (TZ), (f) through run_scriptplan (the interface 'plan report' uses) alone and after 1-4 other such runs incl. runs the library ends with a fatal error, each run with an output directory of its own and all runs into one directory; dates of all scenarios, the ledger and the report tables are compared",
            "samples": [{"mode": kinds[0], "text": tx[0][:700]}]}
     common.finish(ctx, "proof", cov, violations,
                   ["partial: hash-seed and interpreter-level nondeterminism are outside the model and are covered by the runs only",
